@@ -633,7 +633,8 @@ example :
 
 /-- **the quality row and the match count, column by column, about the original reads**: column `k` holds
 `colQual` of the (base, quality) the path shows there for A and for B, in the `(qM, qm)` state left by the
-first `k` columns (`qState`: the (max, min) of the last earlier column with two different qualities);
+first `k` columns (`qState`; since `C08-consensus-quality-column` that state is irrelevant, see
+`consensus_quality_column_local`);
 `seq_ab_match` counts the columns with the same symbol and two positive qualities. -/
 theorem consensus_quality_columns (adj : UInt8 → UInt8) (a qa b qb : Bytes) (p : List Int)
     (hqa : qa.length = a.length) (hqb : qb.length = b.length) (hp : consumes p a.length b.length) :
@@ -651,19 +652,36 @@ theorem consensus_quality_columns (adj : UInt8 → UInt8) (a qa b qb : Bytes) (p
 
 /-- **the column rule for the quality** (byte arithmetic, every `adj`): a gap — or a quality-0 base — on one
 side gives the other side's quality capped at 90; a match gives the sum capped at 90; a mismatch with
-different qualities gives `max − adj(min)` capped at 90; a mismatch at EQUAL qualities gives
-`qM − adj(qm)` of the state: the value does not depend on the column's own qualities (stale `qM`/`qm`,
-transcribed as is — the property does not constrain that value). -/
+different qualities gives `max − adj(min)` capped at 90; a mismatch at EQUAL qualities gives `q − adj(q)` of
+the column's own quality (third round, `C08-consensus-quality-column`: the unpatched code wrote
+`qM − adj(qm)` of an EARLIER column there — `qM`/`qm` were only assigned when the two qualities differ — so
+the quality of a column depended on other columns; shown on the real code by the oracle `cons.qual-local`,
+witness `cons 61636774 28282828 61746774 28282828 2,2,-2,0` in the corpus). -/
 theorem quality_rules (adj : UInt8 → UInt8) (st : UInt8 × UInt8) (nA qA nB qB : UInt8) :
     colQual adj st nA qA nB 0 = cap90 qA ∧ colQual adj st nA 0 nB qB = cap90 qB ∧
     colQual adj st nA qA nA qB = cap90 (qA + qB) ∧
     (qA > 0 → qB > 0 → nA ≠ nB → qA > qB → colQual adj st nA qA nB qB = cap90 (qA - adj qB)) ∧
     (qA > 0 → qB > 0 → nA ≠ nB → qB > qA → colQual adj st nA qA nB qB = cap90 (qB - adj qA)) ∧
-    (qA > 0 → nA ≠ nB → colQual adj st nA qA nB qA = cap90 (st.1 - adj st.2)) :=
+    (qA > 0 → nA ≠ nB → colQual adj st nA qA nB qA = cap90 (qA - adj qA)) :=
   ⟨colQual_gapB adj st nA qA nB, colQual_gapA adj st nA nB qB, colQual_match adj st nA qA qB,
    fun hA hB hn h => (colQual_mismatch adj st nA qA nB qB hA hB hn).1 h,
    fun hA hB hn h => (colQual_mismatch adj st nA qA nB qB hA hB hn).2 h,
-   fun hA hn => colQual_tie_stale adj st nA nB qA hA hn⟩
+   fun hA hn => colQual_tie adj st nA nB qA hA hn⟩
+
+/-- **one quality per column, a function of that column** (third round): column `k` of the quality row is
+`colQual` of the (base, quality) of A and of B that the path shows in column `k` — and of nothing else: not of
+the other columns, not of the position, not of a previous pair (`colQual … (0, 0)`: the `(qM, qm)` handed to
+the column is irrelevant, `colQual_local`). -/
+theorem consensus_quality_column_local (adj : UInt8 → UInt8) (a qa b qb : Bytes) (p : List Int)
+    (hqa : qa.length = a.length) (hqb : qb.length = b.length) (hp : consumes p a.length b.length) :
+    ∃ c, consensus adj a qa b qb p = some c ∧
+      ∀ k, k < ncols p →
+        c.qual.getD k 0 =
+          colQual adj (0, 0)
+            (cellOf a 32 ((columns p 0 0).getD k (none, none)).1) (cellOf qa 0 ((columns p 0 0).getD k (none, none)).1)
+            (cellOf b 32 ((columns p 0 0).getD k (none, none)).2) (cellOf qb 0 ((columns p 0 0).getD k (none, none)).2) := by
+  obtain ⟨c, hc, _, hq⟩ := consensus_quality_columns adj a qa b qb p hqa hqb hp
+  exact ⟨c, hc, fun k hk => by rw [hq k hk]; exact colQual_local adj _ _ _ _ _ _⟩
 
 /-- **exact integer values with the real tables** (`adjAmd64`, the literal the driver requires the harness
 data to equal): match → `min 90 (qA + qB)`; mismatch → `min 90 (qM + mmBonus qm)` with
@@ -675,10 +693,10 @@ theorem quality_values (qA qB : UInt8) (hA : qA.toNat ≤ 93) (hB : qB.toNat ≤
     qA.toNat ≤ qA.toNat + mmBonus.getD qB.toNat 0 :=
   ⟨match_quality_value qA qB (by omega), mismatch_quality_value qA qB hA (by omega), by omega⟩
 
-/-- the stale tie on a concrete input (test): `aa` / `cc` with qualities 50,20 / 10,20 — the second column is a
-mismatch at equal qualities 20 and gets 50 + mmBonus(10) = 52, the value of the first column -/
+/-- the tie on a concrete input (test): `aa` / `cc` with qualities 50,20 / 10,20 — the second column is a
+mismatch at equal qualities 20 and gets 20 + mmBonus(20) = 20 (unpatched code: 52, the value of the first column) -/
 example : (consensus (fun q => adjAmd64.getD q.toNat 0) [97, 97] [50, 20] [99, 99] [10, 20] [0, 2]).map
-    (fun c => (c.seq, c.qual)) = some ([97, 109], [52, 52]) := by decide
+    (fun c => (c.seq, c.qual)) = some ([97, 109], [52, 20]) := by decide
 
 /-! ### the annotations of the record (obipairing) -/
 
